@@ -346,118 +346,120 @@ CarryLost(f, a) ==
                                           /\ w.WaitOptions.WaitSeconds = a.wait_options.wait_seconds) THEN {1} ELSE {}}
 
 -----------------------------------------------------------------------------
-(* Flattening: an instance becomes a function  path -> leaf token.  Presence of a nested object is the
+(* Flattening: an instance becomes a sequence of <<path, leaf token>> pairs (a sequence, not a function: TLC
+   concatenates sequences without re-sorting).  Presence of a nested object is the
    pseudo-leaf "obj"/"noobj" at the object's own path; it is NOT compared (carve-out 3: an absent details
    object and one whose every leaf is absent are the same flattened value). *)
 One(c, s)  == IF c THEN {s} ELSE {}
-EmptyFn    == [k \in {} |-> ""]
+EmptyFn    == <<>>
 Pres(b)    == IF b THEN "obj" ELSE "noobj"
-ErrLeaves(pf, e) == (pf \o "message" :> e.message) @@ (pf \o "type" :> e.type) @@ (pf \o "data" :> e.data)
-                    @@ (pf \o "stack_trace" :> e.stack_trace)
-ErrFlat(nm, e)   == (nm :> Pres(e.p)) @@ ErrLeaves(nm \o ".", e)
-CtxOLeaves(pf, o)  == (pf \o "replay_children" :> o.replay_children)
-StepOLeaves(pf, o) == (pf \o "next_attempt_delay_seconds" :> o.next_attempt_delay_seconds)
-WaitOLeaves(pf, o) == (pf \o "wait_seconds" :> o.wait_seconds)
-CbOLeaves(pf, o)   == (pf \o "timeout_seconds" :> o.timeout_seconds) @@ (pf \o "heartbeat_timeout_seconds" :> o.heartbeat_timeout_seconds)
-InvOLeaves(pf, o)  == (pf \o "function_name" :> o.function_name) @@ (pf \o "tenant_id" :> o.tenant_id)
+ErrLeaves(pf, e) == << <<pf \o "message", e.message>>, <<pf \o "type", e.type>>, <<pf \o "data", e.data>>,
+                    <<pf \o "stack_trace", e.stack_trace>> >>
+ErrFlat(nm, e)   == << <<nm, Pres(e.p)>> >> \o ErrLeaves(nm \o ".", e)
+CtxOLeaves(pf, o)  == << <<pf \o "replay_children", o.replay_children>> >>
+StepOLeaves(pf, o) == << <<pf \o "next_attempt_delay_seconds", o.next_attempt_delay_seconds>> >>
+WaitOLeaves(pf, o) == << <<pf \o "wait_seconds", o.wait_seconds>> >>
+CbOLeaves(pf, o)   == << <<pf \o "timeout_seconds", o.timeout_seconds>>, <<pf \o "heartbeat_timeout_seconds", o.heartbeat_timeout_seconds>> >>
+InvOLeaves(pf, o)  == << <<pf \o "function_name", o.function_name>>, <<pf \o "tenant_id", o.tenant_id>> >>
 OptsFlat(u) ==
-  ("context_options" :> Pres(u.context_options.p)) @@ CtxOLeaves("context_options.", u.context_options)
-  @@ ("wait_options" :> Pres(u.wait_options.p)) @@ WaitOLeaves("wait_options.", u.wait_options)
-  @@ ("callback_options" :> Pres(u.callback_options.p)) @@ CbOLeaves("callback_options.", u.callback_options)
-  @@ ("chained_invoke_options" :> Pres(u.chained_invoke_options.p)) @@ InvOLeaves("chained_invoke_options.", u.chained_invoke_options)
+  << <<"context_options", Pres(u.context_options.p)>> >> \o CtxOLeaves("context_options.", u.context_options)
+  \o << <<"wait_options", Pres(u.wait_options.p)>> >> \o WaitOLeaves("wait_options.", u.wait_options)
+  \o << <<"callback_options", Pres(u.callback_options.p)>> >> \o CbOLeaves("callback_options.", u.callback_options)
+  \o << <<"chained_invoke_options", Pres(u.chained_invoke_options.p)>> >> \o InvOLeaves("chained_invoke_options.", u.chained_invoke_options)
 UpdFlat(u) ==
-  ("operation_id" :> u.operation_id) @@ ("operation_type" :> u.operation_type) @@ ("action" :> u.action)
-  @@ ("parent_id" :> u.parent_id) @@ ("name" :> u.name) @@ ("sub_type" :> u.sub_type) @@ ("payload" :> u.payload)
-  @@ ErrFlat("error", u.error) @@ OptsFlat(u)
-  @@ ("step_options" :> Pres(u.step_options.p)) @@ StepOLeaves("step_options.", u.step_options)
+  << <<"operation_id", u.operation_id>>, <<"operation_type", u.operation_type>>, <<"action", u.action>>,
+  <<"parent_id", u.parent_id>>, <<"name", u.name>>, <<"sub_type", u.sub_type>>, <<"payload", u.payload>> >>
+  \o ErrFlat("error", u.error) \o OptsFlat(u)
+  \o << <<"step_options", Pres(u.step_options.p)>> >> \o StepOLeaves("step_options.", u.step_options)
 ArgsFlat(a) ==
-  ("operation_id" :> a.operation_id) @@ ("parent_id" :> a.parent_id) @@ ("name" :> a.name) @@ ("payload" :> a.payload)
-  @@ ("sub_type" :> a.sub_type) @@ ("delay" :> a.delay) @@ ErrFlat("error", a.error) @@ OptsFlat(a)
+  << <<"operation_id", a.operation_id>>, <<"parent_id", a.parent_id>>, <<"name", a.name>>, <<"payload", a.payload>>,
+  <<"sub_type", a.sub_type>>, <<"delay", a.delay>> >> \o ErrFlat("error", a.error) \o OptsFlat(a)
 
 OpFlat(pf, o) ==
-  (pf \o "operation_id" :> o.operation_id) @@ (pf \o "operation_type" :> o.operation_type) @@ (pf \o "status" :> o.status)
-  @@ (pf \o "parent_id" :> o.parent_id) @@ (pf \o "name" :> o.name)
-  @@ (pf \o "start_timestamp" :> o.start_timestamp) @@ (pf \o "end_timestamp" :> o.end_timestamp) @@ (pf \o "sub_type" :> o.sub_type)
-  @@ (pf \o "execution_details" :> Pres(o.execution_details.p))
-  @@ (pf \o "execution_details.input_payload" :> o.execution_details.input_payload)
-  @@ (pf \o "context_details" :> Pres(o.context_details.p))
-  @@ (pf \o "context_details.replay_children" :> o.context_details.replay_children)
-  @@ (pf \o "context_details.result" :> o.context_details.result)
-  @@ ErrFlat(pf \o "context_details.error", o.context_details.error)
-  @@ (pf \o "step_details" :> Pres(o.step_details.p))
-  @@ (pf \o "step_details.attempt" :> o.step_details.attempt)
-  @@ (pf \o "step_details.next_attempt_timestamp" :> o.step_details.next_attempt_timestamp)
-  @@ (pf \o "step_details.result" :> o.step_details.result)
-  @@ ErrFlat(pf \o "step_details.error", o.step_details.error)
-  @@ (pf \o "wait_details" :> Pres(o.wait_details.p))
-  @@ (pf \o "wait_details.scheduled_end_timestamp" :> o.wait_details.scheduled_end_timestamp)
-  @@ (pf \o "callback_details" :> Pres(o.callback_details.p))
-  @@ (pf \o "callback_details.callback_id" :> o.callback_details.callback_id)
-  @@ (pf \o "callback_details.result" :> o.callback_details.result)
-  @@ ErrFlat(pf \o "callback_details.error", o.callback_details.error)
-  @@ (pf \o "chained_invoke_details" :> Pres(o.chained_invoke_details.p))
-  @@ (pf \o "chained_invoke_details.result" :> o.chained_invoke_details.result)
-  @@ ErrFlat(pf \o "chained_invoke_details.error", o.chained_invoke_details.error)
+  << <<pf \o "operation_id", o.operation_id>>, <<pf \o "operation_type", o.operation_type>>, <<pf \o "status", o.status>>,
+  <<pf \o "parent_id", o.parent_id>>, <<pf \o "name", o.name>>,
+  <<pf \o "start_timestamp", o.start_timestamp>>, <<pf \o "end_timestamp", o.end_timestamp>>, <<pf \o "sub_type", o.sub_type>>,
+  <<pf \o "execution_details", Pres(o.execution_details.p)>>,
+  <<pf \o "execution_details.input_payload", o.execution_details.input_payload>>,
+  <<pf \o "context_details", Pres(o.context_details.p)>>,
+  <<pf \o "context_details.replay_children", o.context_details.replay_children>>,
+  <<pf \o "context_details.result", o.context_details.result>> >>
+  \o ErrFlat(pf \o "context_details.error", o.context_details.error)
+  \o << <<pf \o "step_details", Pres(o.step_details.p)>>,
+  <<pf \o "step_details.attempt", o.step_details.attempt>>,
+  <<pf \o "step_details.next_attempt_timestamp", o.step_details.next_attempt_timestamp>>,
+  <<pf \o "step_details.result", o.step_details.result>> >>
+  \o ErrFlat(pf \o "step_details.error", o.step_details.error)
+  \o << <<pf \o "wait_details", Pres(o.wait_details.p)>>,
+  <<pf \o "wait_details.scheduled_end_timestamp", o.wait_details.scheduled_end_timestamp>>,
+  <<pf \o "callback_details", Pres(o.callback_details.p)>>,
+  <<pf \o "callback_details.callback_id", o.callback_details.callback_id>>,
+  <<pf \o "callback_details.result", o.callback_details.result>> >>
+  \o ErrFlat(pf \o "callback_details.error", o.callback_details.error)
+  \o << <<pf \o "chained_invoke_details", Pres(o.chained_invoke_details.p)>>,
+  <<pf \o "chained_invoke_details.result", o.chained_invoke_details.result>> >>
+  \o ErrFlat(pf \o "chained_invoke_details.error", o.chained_invoke_details.error)
 
 RECURSIVE OpsFlatFrom(_, _, _)
 OpsFlatFrom(pf, s, i) == IF i > Len(s) THEN EmptyFn
-                         ELSE OpFlat(pf \o ToString(i - 1) \o ".", s[i]) @@ OpsFlatFrom(pf, s, i + 1)
-OpsFlat(pf, s) == (pf \o "len" :> ToString(Len(s))) @@ OpsFlatFrom(pf, s, 1)
-OutFlat(o)   == ("status" :> o.status) @@ ("result" :> o.result) @@ ErrFlat("error", o.error)
-IesFlat(pf, s) == (pf \o "next_marker" :> s.next_marker) @@ OpsFlat(pf \o "operations.", s.operations)
-InFlat(v)    == ("durable_execution_arn" :> v.durable_execution_arn) @@ ("checkpoint_token" :> v.checkpoint_token)
-                @@ IesFlat("initial_execution_state.", v.initial_execution_state)
-StateFlat(pf, s) == (pf \o "next_marker" :> s.next_marker) @@ OpsFlat(pf \o "operations.", s.operations)
-CkptFlat(c)  == ("checkpoint_token" :> c.checkpoint_token) @@ StateFlat("new_execution_state.", c.new_execution_state)
-SrcFlat(v)   == ("opsKey" :> v.opsKey) @@ ("marker" :> v.marker) @@ ("token" :> v.token) @@ ("nes" :> v.nes) @@ OpsFlat("ops.", v.ops)
+                         ELSE OpFlat(pf \o ToString(i - 1) \o ".", s[i]) \o OpsFlatFrom(pf, s, i + 1)
+OpsFlat(pf, s) == << <<pf \o "len", ToString(Len(s))>> >> \o OpsFlatFrom(pf, s, 1)
+OutFlat(o)   == << <<"status", o.status>>, <<"result", o.result>> >> \o ErrFlat("error", o.error)
+IesFlat(pf, s) == << <<pf \o "next_marker", s.next_marker>> >> \o OpsFlat(pf \o "operations.", s.operations)
+InFlat(v)    == << <<"durable_execution_arn", v.durable_execution_arn>>, <<"checkpoint_token", v.checkpoint_token>> >>
+                \o IesFlat("initial_execution_state.", v.initial_execution_state)
+StateFlat(pf, s) == << <<pf \o "next_marker", s.next_marker>> >> \o OpsFlat(pf \o "operations.", s.operations)
+CkptFlat(c)  == << <<"checkpoint_token", c.checkpoint_token>> >> \o StateFlat("new_execution_state.", c.new_execution_state)
+SrcFlat(v)   == << <<"opsKey", v.opsKey>>, <<"marker", v.marker>>, <<"token", v.token>>, <<"nes", v.nes>> >> \o OpsFlat("ops.", v.ops)
 
 (* wire dictionaries, flattened the same way: a nested dict's own path carries "dict"/"nokey" *)
 WHas(b) == IF b THEN "dict" ELSE "nokey"
-WErrFlat(nm, w) == (nm :> WHas(w.has)) @@ (nm \o ".ErrorMessage" :> w.ErrorMessage) @@ (nm \o ".ErrorType" :> w.ErrorType)
-                   @@ (nm \o ".ErrorData" :> w.ErrorData) @@ (nm \o ".StackTrace" :> w.StackTrace)
-WCtxOFlat(nm, w)  == (nm :> WHas(w.has)) @@ (nm \o ".ReplayChildren" :> w.ReplayChildren)
-WStepOFlat(nm, w) == (nm :> WHas(w.has)) @@ (nm \o ".NextAttemptDelaySeconds" :> w.NextAttemptDelaySeconds)
-WWaitOFlat(nm, w) == (nm :> WHas(w.has)) @@ (nm \o ".WaitSeconds" :> w.WaitSeconds)
-WCbOFlat(nm, w)   == (nm :> WHas(w.has)) @@ (nm \o ".TimeoutSeconds" :> w.TimeoutSeconds) @@ (nm \o ".HeartbeatTimeoutSeconds" :> w.HeartbeatTimeoutSeconds)
-WInvOFlat(nm, w)  == (nm :> WHas(w.has)) @@ (nm \o ".FunctionName" :> w.FunctionName) @@ (nm \o ".TenantId" :> w.TenantId)
+WErrFlat(nm, w) == << <<nm, WHas(w.has)>>, <<nm \o ".ErrorMessage", w.ErrorMessage>>, <<nm \o ".ErrorType", w.ErrorType>>,
+                   <<nm \o ".ErrorData", w.ErrorData>>, <<nm \o ".StackTrace", w.StackTrace>> >>
+WCtxOFlat(nm, w)  == << <<nm, WHas(w.has)>>, <<nm \o ".ReplayChildren", w.ReplayChildren>> >>
+WStepOFlat(nm, w) == << <<nm, WHas(w.has)>>, <<nm \o ".NextAttemptDelaySeconds", w.NextAttemptDelaySeconds>> >>
+WWaitOFlat(nm, w) == << <<nm, WHas(w.has)>>, <<nm \o ".WaitSeconds", w.WaitSeconds>> >>
+WCbOFlat(nm, w)   == << <<nm, WHas(w.has)>>, <<nm \o ".TimeoutSeconds", w.TimeoutSeconds>>, <<nm \o ".HeartbeatTimeoutSeconds", w.HeartbeatTimeoutSeconds>> >>
+WInvOFlat(nm, w)  == << <<nm, WHas(w.has)>>, <<nm \o ".FunctionName", w.FunctionName>>, <<nm \o ".TenantId", w.TenantId>> >>
 WUpdFlat(w) ==
-  ("Id" :> w.Id) @@ ("Type" :> w.Type) @@ ("Action" :> w.Action) @@ ("ParentId" :> w.ParentId) @@ ("Name" :> w.Name)
-  @@ ("SubType" :> w.SubType) @@ ("Payload" :> w.Payload) @@ WErrFlat("Error", w.Error)
-  @@ WCtxOFlat("ContextOptions", w.ContextOptions) @@ WStepOFlat("StepOptions", w.StepOptions)
-  @@ WWaitOFlat("WaitOptions", w.WaitOptions) @@ WCbOFlat("CallbackOptions", w.CallbackOptions)
-  @@ WInvOFlat("ChainedInvokeOptions", w.ChainedInvokeOptions)
+  << <<"Id", w.Id>>, <<"Type", w.Type>>, <<"Action", w.Action>>, <<"ParentId", w.ParentId>>, <<"Name", w.Name>>,
+  <<"SubType", w.SubType>>, <<"Payload", w.Payload>> >> \o WErrFlat("Error", w.Error)
+  \o WCtxOFlat("ContextOptions", w.ContextOptions) \o WStepOFlat("StepOptions", w.StepOptions)
+  \o WWaitOFlat("WaitOptions", w.WaitOptions) \o WCbOFlat("CallbackOptions", w.CallbackOptions)
+  \o WInvOFlat("ChainedInvokeOptions", w.ChainedInvokeOptions)
 WOpFlat(pf, w) ==
-  (pf \o "Id" :> w.Id) @@ (pf \o "Type" :> w.Type) @@ (pf \o "Status" :> w.Status) @@ (pf \o "ParentId" :> w.ParentId)
-  @@ (pf \o "Name" :> w.Name) @@ (pf \o "StartTimestamp" :> w.StartTimestamp) @@ (pf \o "EndTimestamp" :> w.EndTimestamp)
-  @@ (pf \o "SubType" :> w.SubType)
-  @@ (pf \o "ExecutionDetails" :> WHas(w.ExecutionDetails.has)) @@ (pf \o "ExecutionDetails.InputPayload" :> w.ExecutionDetails.InputPayload)
-  @@ (pf \o "ContextDetails" :> WHas(w.ContextDetails.has)) @@ (pf \o "ContextDetails.ReplayChildren" :> w.ContextDetails.ReplayChildren)
-  @@ (pf \o "ContextDetails.Result" :> w.ContextDetails.Result) @@ WErrFlat(pf \o "ContextDetails.Error", w.ContextDetails.Error)
-  @@ (pf \o "StepDetails" :> WHas(w.StepDetails.has)) @@ (pf \o "StepDetails.Attempt" :> w.StepDetails.Attempt)
-  @@ (pf \o "StepDetails.NextAttemptTimestamp" :> w.StepDetails.NextAttemptTimestamp)
-  @@ (pf \o "StepDetails.Result" :> w.StepDetails.Result) @@ WErrFlat(pf \o "StepDetails.Error", w.StepDetails.Error)
-  @@ (pf \o "WaitDetails" :> WHas(w.WaitDetails.has)) @@ (pf \o "WaitDetails.ScheduledEndTimestamp" :> w.WaitDetails.ScheduledEndTimestamp)
-  @@ (pf \o "CallbackDetails" :> WHas(w.CallbackDetails.has)) @@ (pf \o "CallbackDetails.CallbackId" :> w.CallbackDetails.CallbackId)
-  @@ (pf \o "CallbackDetails.Result" :> w.CallbackDetails.Result) @@ WErrFlat(pf \o "CallbackDetails.Error", w.CallbackDetails.Error)
-  @@ (pf \o "ChainedInvokeDetails" :> WHas(w.ChainedInvokeDetails.has)) @@ (pf \o "ChainedInvokeDetails.Result" :> w.ChainedInvokeDetails.Result)
-  @@ WErrFlat(pf \o "ChainedInvokeDetails.Error", w.ChainedInvokeDetails.Error)
+  << <<pf \o "Id", w.Id>>, <<pf \o "Type", w.Type>>, <<pf \o "Status", w.Status>>, <<pf \o "ParentId", w.ParentId>>,
+  <<pf \o "Name", w.Name>>, <<pf \o "StartTimestamp", w.StartTimestamp>>, <<pf \o "EndTimestamp", w.EndTimestamp>>,
+  <<pf \o "SubType", w.SubType>>,
+  <<pf \o "ExecutionDetails", WHas(w.ExecutionDetails.has)>>, <<pf \o "ExecutionDetails.InputPayload", w.ExecutionDetails.InputPayload>>,
+  <<pf \o "ContextDetails", WHas(w.ContextDetails.has)>>, <<pf \o "ContextDetails.ReplayChildren", w.ContextDetails.ReplayChildren>>,
+  <<pf \o "ContextDetails.Result", w.ContextDetails.Result>> >> \o WErrFlat(pf \o "ContextDetails.Error", w.ContextDetails.Error)
+  \o << <<pf \o "StepDetails", WHas(w.StepDetails.has)>>, <<pf \o "StepDetails.Attempt", w.StepDetails.Attempt>>,
+  <<pf \o "StepDetails.NextAttemptTimestamp", w.StepDetails.NextAttemptTimestamp>>,
+  <<pf \o "StepDetails.Result", w.StepDetails.Result>> >> \o WErrFlat(pf \o "StepDetails.Error", w.StepDetails.Error)
+  \o << <<pf \o "WaitDetails", WHas(w.WaitDetails.has)>>, <<pf \o "WaitDetails.ScheduledEndTimestamp", w.WaitDetails.ScheduledEndTimestamp>>,
+  <<pf \o "CallbackDetails", WHas(w.CallbackDetails.has)>>, <<pf \o "CallbackDetails.CallbackId", w.CallbackDetails.CallbackId>>,
+  <<pf \o "CallbackDetails.Result", w.CallbackDetails.Result>> >> \o WErrFlat(pf \o "CallbackDetails.Error", w.CallbackDetails.Error)
+  \o << <<pf \o "ChainedInvokeDetails", WHas(w.ChainedInvokeDetails.has)>>, <<pf \o "ChainedInvokeDetails.Result", w.ChainedInvokeDetails.Result>> >>
+  \o WErrFlat(pf \o "ChainedInvokeDetails.Error", w.ChainedInvokeDetails.Error)
 RECURSIVE WOpsFlatFrom(_, _, _)
 WOpsFlatFrom(pf, s, i) == IF i > Len(s) THEN EmptyFn
-                          ELSE WOpFlat(pf \o ToString(i - 1) \o ".", s[i]) @@ WOpsFlatFrom(pf, s, i + 1)
-WStateFlat(pf, w) == (pf \o "Operations" :> w.OperationsKey) @@ (pf \o "Operations.len" :> ToString(Len(w.Operations)))
-                     @@ WOpsFlatFrom(pf \o "Operations.", w.Operations, 1) @@ (pf \o "NextMarker" :> w.NextMarker)
-WOutFlat(w) == ("Status" :> w.Status) @@ ("Result" :> w.Result) @@ WErrFlat("Error", w.Error)
-WInFlat(w)  == ("DurableExecutionArn" :> w.DurableExecutionArn) @@ ("CheckpointToken" :> w.CheckpointToken)
-               @@ ("InitialExecutionState" :> WHas(w.InitialExecutionState.has)) @@ WStateFlat("InitialExecutionState.", w.InitialExecutionState)
-WCkptFlat(w) == ("CheckpointToken" :> w.CheckpointToken) @@ ("NewExecutionState" :> WHas(w.NewExecutionState.has))
-                @@ WStateFlat("NewExecutionState.", w.NewExecutionState)
+                          ELSE WOpFlat(pf \o ToString(i - 1) \o ".", s[i]) \o WOpsFlatFrom(pf, s, i + 1)
+WStateFlat(pf, w) == << <<pf \o "Operations", w.OperationsKey>>, <<pf \o "Operations.len", ToString(Len(w.Operations))>> >>
+                     \o WOpsFlatFrom(pf \o "Operations.", w.Operations, 1) \o << <<pf \o "NextMarker", w.NextMarker>> >>
+WOutFlat(w) == << <<"Status", w.Status>>, <<"Result", w.Result>> >> \o WErrFlat("Error", w.Error)
+WInFlat(w)  == << <<"DurableExecutionArn", w.DurableExecutionArn>>, <<"CheckpointToken", w.CheckpointToken>>,
+               <<"InitialExecutionState", WHas(w.InitialExecutionState.has)>> >> \o WStateFlat("InitialExecutionState.", w.InitialExecutionState)
+WCkptFlat(w) == << <<"CheckpointToken", w.CheckpointToken>>, <<"NewExecutionState", WHas(w.NewExecutionState.has)>> >>
+                \o WStateFlat("NewExecutionState.", w.NewExecutionState)
 
 (* ~ : equality of flattened leaves modulo exactly the stated carve-outs *)
 Norm(v) == CASE v = "empty" -> "absent"                    \* empty optional string == absent ("rempty" is NOT normalised)
              [] v \in {"subms", "submsT"} -> "S"           \* millisecond truncation
              [] v \in {"tzoff", "tzoffU"} -> "Z"           \* same instant, other tzinfo
              [] OTHER -> v
-Lost(a, b) == {k \in DOMAIN a : a[k] \notin {"obj", "noobj"} /\ (k \notin DOMAIN b \/ Norm(a[k]) # Norm(b[k]))}
+Lost(a, b) == {a[j][1] : j \in {i \in 1..Len(a) : a[i][2] \notin {"obj", "noobj"}
+                                          /\ (i > Len(b) \/ b[i][1] # a[i][1] \/ Norm(a[i][2]) # Norm(b[i][2]))}}
 
 -----------------------------------------------------------------------------
 (* The named deviations of the code, characterised on the INSTANCE (not on the computed round trip).
@@ -517,20 +519,27 @@ Losses(x) ==
     [] x.cls = "Factory" -> [NoLoss EXCEPT !.carry = CarryLost(x.f, v)]
 
 Kinds == {"dict", "json", "idict", "ijson", "carry"}
-AllLost(x)    == LET l == Losses(x) IN UNION {l[k] : k \in Kinds}
-Lossless(x)   == AllLost(x) = {}
+UnionOf(l)       == UNION {l[k] : k \in Kinds}
+LosslessL(l)     == \A k \in Kinds : l[k] = {}
+OnlyKnownL(l, e) == \A k \in Kinds : l[k] \subseteq e[k]
+KnownL(l, e)     == ~LosslessL(l) /\ OnlyKnownL(l, e)
+Lossless(x)   == LosslessL(Losses(x))                    \* FromDict(ToDict(x)) ~ x, FromJsonDict(ToJsonDict(x)) ~ x, ...
+Known(x)      == KnownL(Losses(x), Expected(x))          \* something is lost, and only what a named scenario explains
 UpdateCarriesOptions(x) == Losses(x).carry = {}
-OnlyKnown(x)  == LET l == Losses(x) e == Expected(x) IN \A k \in Kinds : l[k] \subseteq e[k]
-Known(x)      == ~Lossless(x) /\ OnlyKnown(x)
-Sigs(x) == LET a == AllLost(x) IN
+Sigs(x) == LET l == Losses(x) a == UnionOf(l) IN
    One(a \cap K1of(x) # {}, "context-details-dropped") \cup One(a \cap K2of(x) # {}, "epoch0-timestamp")
    \cup One(a \cap K3of(x) # {}, "ms-rounding") \cup One(a \cap K4of(x) # {}, "far-future-us-drift")
-   \cup One(~OnlyKnown(x), "UNEXPECTED")
+   \cup One(~OnlyKnownL(l, Expected(x)), "UNEXPECTED")
 
-(* INVARIANTS *)
-Inv_LosslessOrKnown == Lossless(inst) \/ Known(inst)
+(* INVARIANTS (each evaluates the round trips once) *)
+Inv_LosslessOrKnown == LET l == Losses(inst) IN LosslessL(l) \/ KnownL(l, Expected(inst))     \* = Lossless(inst) \/ Known(inst)
 Inv_UpdateCarriesOptions == UpdateCarriesOptions(inst)
 Inv_KnownExact == LET l == Losses(inst) e == Expected(inst) IN \A k \in Kinds : l[k] = e[k]   \* the named scenarios characterise the losses exactly
+(* all three at once, for the quick tier *)
+Inv_All == LET l == Losses(inst) e == Expected(inst) IN
+             /\ LosslessL(l) \/ KnownL(l, e)
+             /\ l.carry = {}
+             /\ \A k \in Kinds : l[k] = e[k]
 (* probes: each must be VIOLATED, i.e. the named scenario is still reachable in the transcription *)
 Probe_NoContextDetailsDropped == "context-details-dropped" \notin Sigs(inst)
 Probe_NoEpoch0Timestamp       == "epoch0-timestamp" \notin Sigs(inst)
@@ -658,12 +667,11 @@ SliceSet(s) ==
                        \cup Inst("CheckpointOutput", s, CkptSrc)
     [] s = "factory" -> UNION {{[cls |-> "Factory", slice |-> s, f |-> f, v |-> a] : a \in FactoryArgs(f)} : f \in Factories}
 AllSlices == {"err", "opts", "upd_enum", "upd_err", "upd_pres", "op_enum", "op_head", "op_det", "op_combo", "out", "inp", "decode", "factory"}
-Domain == UNION {SliceSet(s) : s \in Slices}
 
 -----------------------------------------------------------------------------
 (* dump: one JSON line per instance = the instance, the wire forms and the model's prediction *)
-Sparse(f, drop) == LET ks == {k \in DOMAIN f : f[k] \notin drop} IN [k \in ks |-> f[k]]
-Diff(f, g)      == LET ks == {k \in DOMAIN f : f[k] # g[k]} IN [k \in ks |-> f[k]]
+Sparse(f, drop) == SelectSeq(f, LAMBDA pr : pr[2] \notin drop)
+Diff(f, g)      == {f[i] : i \in {j \in 1..Len(f) : f[j] # g[j]}}
 XFlat(x) == LET v == x.v IN
   CASE x.cls = "ErrorObject" -> ErrLeaves("", v)
     [] x.cls = "ContextOptions" -> CtxOLeaves("", v) [] x.cls = "StepOptions" -> StepOLeaves("", v)
@@ -687,12 +695,15 @@ JWireOf(x) ==
   CASE x.cls = "Operation" -> WOpFlat("", OpToJsonDict(x.v))
     [] x.cls = "InvocationInput" -> WInFlat(InToDict(x.v, OpToJsonDict))
     [] OTHER -> WireOf(x)
-Row(x) == LET l == Losses(x) w == WireOf(x) IN
+Row(x) == LET l == Losses(x) w == WireOf(x) a == UnionOf(l) IN
   [cls |-> x.cls, slice |-> x.slice, f |-> x.f, x |-> Sparse(XFlat(x), {"absent", "noobj", "na"}),
    wire |-> Sparse(w, {"nokey"}), jwire |-> Diff(JWireOf(x), w),
-   dict |-> l.dict, json |-> l.json, idict |-> l.idict, ijson |-> l.ijson, carry |-> l.carry, sigs |-> Sigs(x)]
+   dict |-> l.dict, json |-> l.json, idict |-> l.idict, ijson |-> l.ijson, carry |-> l.carry,
+   sigs |-> One(a \cap K1of(x) # {}, "context-details-dropped") \cup One(a \cap K2of(x) # {}, "epoch0-timestamp")
+            \cup One(a \cap K3of(x) # {}, "ms-rounding") \cup One(a \cap K4of(x) # {}, "far-future-us-drift")
+            \cup One(~OnlyKnownL(l, Expected(x)), "UNEXPECTED")]
 
-Init     == inst \in Domain
-InitDump == inst \in Domain /\ PrintT(ToJson(Row(inst)))
+Init     == \E s \in Slices : inst \in SliceSet(s)
+InitDump == (\E s \in Slices : inst \in SliceSet(s)) /\ PrintT(ToJson(Row(inst)))
 Next     == UNCHANGED inst
 =============================================================================
